@@ -3,6 +3,8 @@
 //! Case: {id, tops, nsites, nprelude}. Record: {id, nsites, nprelude, results:[{mask:[bool], class, digest}]}.
 //! The mask universe mirrors SyltAnnot!Masks; TLC asserts that the record covers it.
 //! C08_STUB=salt: negative control, perturbs the digest of one variant per program.
+//!   c08 probe <file.sy>..                                   compile hand-written programs (analysis aid)
+//!   c08 print <cases.ndjson> <line> [all|none|0110..]       program text of a case (analysis aid)
 
 use serde_json::{json, Value};
 use std::collections::BTreeSet;
@@ -53,6 +55,20 @@ fn main() {
         }
         return;
     }
+    if args.len() >= 4 && args[1] == "print" {
+        // c08 print <cases.ndjson> <line (1-based)> [all|none|<mask of 0/1>]: the program text of a case (analysis aid)
+        let cases: Vec<Value> = read_ndjson(Path::new(&args[2]));
+        let c = &cases[args[3].parse::<usize>().unwrap() - 1];
+        let annot = match args.get(4).map(|x| x.as_str()) {
+            None | Some("all") => Annot::All,
+            Some("none") => Annot::None,
+            Some(bits) => Annot::Mask(bits.chars().map(|ch| ch == '1').collect()),
+        };
+        let opts = PrintOpts { annot, ..Default::default() };
+        let (src, sites, _, _) = print_program_sites(c["tops"].as_array().unwrap(), &opts);
+        println!("// {} sites={}\n{}", c["id"], sites, src);
+        return;
+    }
     if args.len() < 5 || args[1] != "record" {
         tool_error("usage: c08 record <cases> <trace> <maxexh>");
     }
@@ -64,7 +80,9 @@ fn main() {
         let n = c["nsites"].as_u64().unwrap() as usize;
         let np = c["nprelude"].as_u64().unwrap() as usize;
         let mut results = Vec::new();
-        for (vi, m) in masks(n, np, maxexh).into_iter().enumerate() {
+        let all_masks = masks(n, np, maxexh);
+        let salted = 3.min(all_masks.len() - 1);
+        for (vi, m) in all_masks.into_iter().enumerate() {
             let opts = PrintOpts { annot: Annot::Mask(m.clone()), ..Default::default() };
             let (src, sites, _, _) = print_program_sites(tops, &opts);
             if sites != n {
@@ -79,7 +97,7 @@ fn main() {
                 ),
                 CompileResult::Panic { message, .. } => ("panic", String::new(), message),
             };
-            if salt && vi == 3 {
+            if salt && vi == salted {
                 digest.push('x');
             }
             let mut r = json!({"mask": m, "class": class, "digest": digest});
